@@ -273,30 +273,30 @@ theorem var_cr_Z_ctr (F : ℝ → ℝ) (θ t_cr : ℝ) (h : 0 ≤ CR.a t_cr) :
     CR.std_Wdz_ctr t_cr ^ 2 = QG.Spec.integ F (fun _ => 1 * 1) θ (CR.a t_cr) := by
   constructor <;> simp [CR.std_Wp_ctr, CR.std_Wdz_ctr, QG.Spec.integ_const, Real.sq_sqrt h]
 
-/-! ## the cross-resonance drift is hard-coded for the **constant** pulse
+/-! ## the cross-resonance drift follows the pulse
 
-`det1, det2, det3` of `CRFactory` are closed forms, not routed through the integrator: they are the
-integrals of `(sin²(θ/2), sinθ, cos²(θ/2))` for the constant pulse `F = id` only (for other pulse shapes
-the drift of the CR gate does not follow the pulse; remark R1 in DESIGN.md, `_partial` with respect to
-"every pulse shape"). -/
-theorem drift_cr_closed_forms_partial (t_cr θ : ℝ) (ha : 0 < CR.a t_cr) :
-    CR.det1 θ t_cr = QG.Spec.integ id g3 θ (CR.a t_cr) ∧
-    CR.det2 θ t_cr = QG.Spec.integ id g6 θ (CR.a t_cr) ∧
-    CR.det3 θ t_cr = QG.Spec.integ id g7 θ (CR.a t_cr) := by
-  by_cases hθ : θ = 0
-  · -- the limits the code returns at `θ = 0`
-    subst hθ
-    unfold CR.det1 CR.det2 CR.det3 QG.Spec.integ g3 g6 g7
-    simp
+`det1, det2, det3` of `CRFactory` are the integrals of `(sin²(θ/2), sinθ, cos²(θ/2))` along the pulse, like the
+drift of the single-qubit gate (on the pinned tree they were closed forms valid for the constant pulse only — defect
+D24, repaired; before the repair this statement was `drift_cr_closed_forms_partial`, restricted to `F = id`). -/
+theorem drift_cr (F : ℝ → ℝ) (t_cr θ : ℝ) :
+    CR.det1 F θ t_cr = QG.Spec.integ F g3 θ (CR.a t_cr) ∧
+    CR.det2 F θ t_cr = QG.Spec.integ F g6 θ (CR.a t_cr) ∧
+    CR.det3 F θ t_cr = QG.Spec.integ F g7 θ (CR.a t_cr) := ⟨rfl, rfl, rfl⟩
+
+/-- for the constant pulse these are the closed forms the code used to hard-code -/
+theorem drift_cr_constant_pulse (t_cr θ : ℝ) (hθ : θ ≠ 0) (ha : 0 < CR.a t_cr) :
+    CR.det1 id θ t_cr = (CR.a t_cr * θ - CR.a t_cr * Real.sin θ) / (2 * θ) ∧
+    CR.det2 id θ t_cr = (CR.a t_cr / θ) * (1 - Real.cos θ) ∧
+    CR.det3 id θ t_cr = CR.a t_cr / (2 * θ) * (θ + Real.sin θ) := by
   have e : ∀ t : ℝ, θ * id (t / CR.a t_cr) = θ * t / CR.a t_cr := fun t => by simp [mul_div_assoc]
   refine ⟨?_, ?_, ?_⟩
-  · unfold QG.Spec.integ g3; simp_rw [e]
-    rw [QG.Integrator.cf_sin_half_sq θ _ hθ ha]; unfold CR.det1; rw [if_neg hθ]; field_simp
-  · unfold QG.Spec.integ g6; simp_rw [e]
+  · unfold CR.det1 QG.Spec.integ g3; simp_rw [e]
+    rw [QG.Integrator.cf_sin_half_sq θ _ hθ ha]; field_simp
+  · unfold CR.det2 QG.Spec.integ g6; simp_rw [e]
     have := QG.Integrator.cf_sin θ _ hθ ha
-    simp only [div_one]; rw [this]; unfold CR.det2; rw [if_neg hθ]; field_simp
-  · unfold QG.Spec.integ g7; simp_rw [e]
-    rw [QG.Integrator.cf_cos_half_sq θ _ hθ ha]; unfold CR.det3; rw [if_neg hθ]; field_simp
+    simp only [div_one]; rw [this]; field_simp
+  · unfold CR.det3 QG.Spec.integ g7; simp_rw [e]
+    rw [QG.Integrator.cf_cos_half_sq θ _ hθ ha]; field_simp
 
 /-! ## strengths -/
 
